@@ -14,8 +14,10 @@ RULE = ("block 'mono' (enumerated completely, exhaustive for its bounds; thoroug
         "{None,1,2,3,-1,-2}; random blocks: shuffled-numeric and str axes with bounds from the labels (and absent bounds), slices in "
         "any dimension of 1-4-d arrays combined with other index kinds, position slices vs NumPy. "
         "class = (block, length, kind, direction, where start/stop fall, step); trivial = full slice")
-ANCHORS = ["indexing.locate_slice", "indexing._locate_slice_strict", "indexing.is_monotonic_equal", "bases.loc"]
-FLOORS = {"quick": {"evaluations": 20000, "distinct": 300, "anchor:indexing._locate_slice_strict": 500},
+ANCHORS = ["indexing.locate_slice", "indexing._locate_slice_strict", "indexing.is_monotonic_equal", "bases.loc", "bases.__getitem__"]
+# entry points the workload calls itself; the other anchors are helpers behind them (counted as evidence only)
+ANCHORS_REQUIRED = ["bases.__getitem__"]
+FLOORS = {"quick": {"evaluations": 20000, "distinct": 300, "outcome:strict-slices": 500},
           "thorough": {"evaluations": 60000, "distinct": 300}}
 STEPS = [None, 1, 2, 3, -1, -2]
 NSH = 16
@@ -171,6 +173,8 @@ def check(case, ctx):
         if blk != "mono" or (case["start"] is None or case["stop"] is None):
             jobs.append(("a.loc[%r:%r:%r]" % (sl.start, sl.stop, sl.step), lambda: a.loc[sl]))
             jobs.append(("a.sel(t=slice(%r,%r,%r))" % (sl.start, sl.stop, sl.step), lambda: a.sel(t=sl)))
+        if blk == 'strict':
+            ctx.outcomes['strict-slices'] += 1     # str or shuffled axis: both bounds must be existing labels
         for label, fn in jobs:
             label = "%s on axis %s" % (label, codec.short(lab, 80))
             res, exc = ctx.call(label, fn, operands=(a,), meta='carry')
